@@ -388,3 +388,38 @@ func VerifC08Extensions() {
 	vrtObserve("got", got)
 	vrtAssert("extension-string-stays-a-string", got == any(leaf))
 }
+
+// VerifC08Ulimits: ulimits of a service and of its build take integers or strings (schema): a number supplied through
+// a variable gives the same limits as the literal, in the single-value and in the soft/hard form.
+func VerifC08Ulimits() {
+	inBuild := vrtChoice("inBuild", 2) == 1
+	pair := vrtChoice("softHard", 2) == 1
+	mk := func(num any) map[string]any {
+		var u any = map[string]any{"nofile": num}
+		if pair {
+			u = map[string]any{"nofile": map[string]any{"soft": num, "hard": num}}
+		}
+		s := map[string]any{"image": "i"}
+		if inBuild {
+			s["build"] = map[string]any{"context": "/ctx", "ulimits": u}
+		} else {
+			s["ulimits"] = u
+		}
+		return map[string]any{"services": map[string]any{"s": s}}
+	}
+	env := types.Mapping{"N": "1024"}
+	pa, ea := tcLoadProject(env, nil, mk(1024))
+	vrtAssert("literal-loads", ea == nil)
+	if ea != nil {
+		return
+	}
+	form := []any{"${N}", "1024", "${UNSET:-1024}"}[vrtChoice("form", 3)]
+	pb, eb := tcLoadProject(env, nil, mk(form))
+	vrtObserve("err", eb != nil)
+	vrtAssert("number-through-variable-loads", eb == nil)
+	if eb != nil {
+		vrtObserve("msg", eb.Error())
+		return
+	}
+	vrtAssert("same-limits", vrtDeepEqual(any(pa.Services["s"]), any(pb.Services["s"])))
+}
